@@ -2,6 +2,7 @@
 EXTENDS AGM, AGMDen, AGMProgs, Json
 CONSTANTS Family, Depth, Export
 Programs == CASE Family = "nest" -> NestFamily(Depth, {2})
+              [] Family = "nestq" -> NestFamilyQ(Depth, {2})
               [] Family = "fault" -> FaultFamily({2, 3})
               [] Family = "ctrl" -> CtrlFamily({2, 5})
               [] Family = "nd" -> NdFamily({2, 3})
